@@ -241,11 +241,14 @@ def check_wrapping(ctx):
     # frac_sites uses the wrapped sites and the voxel centre
     ff = ctx.fn(f'{PW}.frac_sites')
     rets = [r.value for r in ast.walk(ff.node) if isinstance(r, ast.Return) and r.value is not None]
+    defs_f = def_map(ff.node)
     for r in rets:
-        t = norm_text(r).replace(' ', '')
-        ok = t in ('(np.array(sites)+0.5)/np.array(self.dims)',)
-        uses_wrapped = any(isinstance(n, ast.Call) and norm_text(n.func) == 'self.wrapped_sites' for n in ast.walk(ff.node))
-        ctx.ob('R3', ff, r, True if (ok and uses_wrapped) else None, 'voxel centres of the wrapped sites / dims' if ok else 'fractional site formula not recognised')
+        t = norm_text(expand(r, defs_f)).replace(' ', '')
+        ok = t in ('(np.array(self.wrapped_sites())+0.5)/np.array(self.dims)',)
+        raw = t in ('(np.array(self.sites)+0.5)/np.array(self.dims)',)
+        ctx.ob('R3', ff, r, True if ok else (False if raw else None), 'voxel centres of the wrapped sites / dims' if ok else
+               ('fractional coordinates are computed from the unwrapped voxel indices: for a percolating path (which extends into the next '
+                'cell) they lie outside [0, 1)' if raw else 'fractional site formula not recognised'))
 
 
 def check_tables(ctx):
@@ -341,6 +344,13 @@ def check_percolation(ctx):
         okinit = init is not None and norm_text(init).replace(' ', '') in ("float('inf')", 'np.inf', 'math.inf', 'float("inf")')
         ctx.ob('R5', fi, n, True if (ok and okinit) else (False if t in ('cost>best_cost', 'best_cost<cost', 'cost>=best_cost') else None),
                'cheapest path over all peaks kept (strict improvement from +inf)' if (ok and okinit) else 'the comparison does not keep the cheapest path')
+    # every peak is examined: the loop over the peaks has no early exit
+    for lp in ast.walk(body):
+        if isinstance(lp, ast.For) and norm_text(lp.iter) == 'peaks':
+            exits = [w for w in walk_no_nested(lp) if isinstance(w, (ast.Break, ast.Return))]
+            ctx.ob('R5', fi, f'for {norm_text(lp.target)} in peaks', not exits,
+                   'all peaks are examined' if not exits else
+                   f'the search over the peaks stops early (`{norm_text(exits[0])}`): a later peak with a cheaper percolating path is never tried')
     restores = [n for n in ast.walk(body) if isinstance(n, ast.Assign) and norm_text(n.targets[0]) == 'best_path.dims']
     if not restores:
         ctx.ob('R5', fi, 'best_path.dims', False, 'the dimensions of the original grid are not restored on the returned path: wrapped '
